@@ -126,6 +126,17 @@ struct Tracker {
     write(p, TOK_DEAD, 0xDDDDDDDDu, size);
     if (size > 16) memset((uint8_t *)p + 16, 0xDD, size - 16);
   }
+  // assignment between two constructed elements (C++ operator=)
+  void assign(void *dst, const void *src) {
+    uint64_t dt, st;
+    memcpy(&dt, dst, 8);
+    memcpy(&st, src, 8);
+    auto d = live.find(dt), s = live.find(st);
+    if (d == live.end()) { if (viol) viol->rec("assign-to-dead", "operator= on a target that is not a live element but %s", describe(dst).c_str()); return; }
+    if (s == live.end()) { if (viol) viol->rec("copy-from-dead", "operator= from a source that is not a live element but %s", describe(src).c_str()); return; }
+    d->second.val = s->second.val;
+    write(dst, dt, d->second.val, d->second.size);
+  }
   // slot inspection by the oracle: is this a live, intact element?  -> value
   bool read(const void *p, size_t size, uint32_t &val, std::string &why) {
     uint64_t t;
